@@ -62,10 +62,19 @@ Z1 == << << "c", "h1" >>, << "y", "h10" >>, << "L", "W0" >>, << "z", "x100" >>, 
 Z3 == << << "y", "y0" >>, << "L2", "L10" >>, << "d", "d0" >>, << "g", "g20" >> >>
 Z4 == << << "Lx", "R0" >>, << "v", "v10" >> >>
 
+(* names that differ from the parser's special left-hand names (t, t_minus_1, MaxTime) only in *)
+(* letter case: T (taxes), T_MINUS_1, T_Minus_1, maxtime.  They are ordinary variables: the    *)
+(* automatic t = k is still supplied (FoundT is about the exact names) and a constant called   *)
+(* maxtime does not set the horizon.                                                           *)
+C1 == << << "c", "T" >>, << "M", "T_MINUS_1" >>, << "q", "maxtime" >> >>
+C3 == << << "d", "T" >>, << "L2", "T_Minus_1" >>, << "g", "MAXTIME" >> >>
+C4 == << << "Lx", "t_Minus_1" >>, << "v", "T" >> >>
+
 BP(b) == CASE b = "B1" -> MC_B1 [] b = "B2" -> MC_B2 [] b = "B3" -> MC_B3 [] b = "B4" -> MC_B4
            [] b = "B5" -> MC_B5
+           [] b = "B1c" -> RenVars(C1, MC_B1) [] b = "B3c" -> RenVars(C3, MC_B3) [] b = "B4c" -> RenVars(C4, MC_B4)
            [] b = "B1z" -> RenVars(Z1, MC_B1) [] b = "B3z" -> RenVars(Z3, MC_B3) [] b = "B4z" -> RenVars(Z4, MC_B4)
-ZBPs == {"B1z", "B3z", "B4z"}
+ZBPs == {"B1z", "B3z", "B4z", "B1c", "B3c", "B4c"}       \* the renamed blueprints
 BPs == {"B1", "B2", "B3", "B4", "B5"} \cup ZBPs
 
 PathVals == << 3, 1, 4, 1, 5, 9, 2, 6, 5, 3 >>
